@@ -3,7 +3,7 @@
    copy at offset L, gringo's unknown-atom simplification) and Spec/DefElim.v (the auxiliary __future_p atoms of future
    heads with their defining rules, bridge rules and assumptions are a definitional extension). *)
 From Coq Require Import List Bool Arith ZArith Lia.
-Require Import HT TEL TELext DecP DefElim Window GenPrelude FromSource Loop Leaf_imain LoopProofs.
+Require Import HT TEL TELext DecP DefElim CoreRun Window Combined GenPrelude FromSource Loop Leaf_imain LoopProofs.
 
 (* The instances accumulated by the incremental run of steps 0..h for look-ahead constraints (any depth, any part) are
    satisfied exactly if every constraint holds, read with atoms beyond h false, at every admissible position k <= h:
@@ -12,6 +12,14 @@ Theorem C02_window_exact : forall (A : Type) (P : list (crule A)) (h : nat) (H T
   agrees _ (dec A h) H -> agrees _ (dec A h) T ->
   (modelP _ H T (of_list _ (rules A P h)) <-> Window.tmodel A P h (tr A H) (tr A T)).
 Proof. exact C02_window. Qed.
+
+(* Core rules (every head form, four parts) and look-ahead constraints (any depth) in ONE program: the equilibrium
+   models of everything the incremental run of steps 0..h has accumulated - core instances, temporary copies of every
+   earlier step (dead), temporary copies of step h, permanent copies - are exactly the temporal stable models of all
+   rules together over the trace of length h+1, for every h (including h smaller than the look-ahead). *)
+Theorem C02_core_and_lookahead_exact : forall (A : Type) (h : nat) (P1 : list (CoreRun.srule A)) (P2 : list (Window.crule A)) (T' : interp (gatom A)),
+  equilibriumP _ T' (union _ (prog12 A h P1 P2) (aux_theory _ (dec A h))) <-> agrees _ (dec A h) T' /\ tsm12 A h P1 P2 (tr A T').
+Proof. exact combined_exact. Qed.
 
 (* the temporary copy grounded at the current last step h means the constraint with atoms beyond h false *)
 Theorem C02_temporary_copy_live : forall (A : Type) (h : nat) (H T : interp (gatom A)),
@@ -84,3 +92,4 @@ Print Assumptions C02_future_aux_elim_backward.
 Print Assumptions C02_assumption_filter.
 Print Assumptions C02_window_parts.
 Print Assumptions C02_loop_grounds_window.
+Print Assumptions C02_core_and_lookahead_exact.
